@@ -118,6 +118,18 @@ def generate(pid, prop, reg):
             for k2 in sorted(interp.applied - seen):
                 seen.add(k2)
                 work.append(k2)
+    # functions used only as assumed function symbols (external contracts): the assumption "the result is a function of the
+    # arguments" is at least checked syntactically (no module-level mutable state, RNG, clock, files, object identity)
+    for key in getattr(prop, 'FRAME_ONLY', []):
+        c = reg[key]
+        interp = Interp(reg, pid)
+        t0 = time.time()
+        obs = interp.frame_only(c)
+        for ob in obs:
+            ob.lemmas, ob.unfold, ob.function = [], [], key
+        obligations.extend(obs)
+        functions.append({'function': f"{c['module']}:{c['qualname']}", 'ast_sha': c.get('_sha'),
+                          'obligations': len(obs), 'vcgen_s': round(time.time() - t0, 3)})
     if hasattr(prop, 'extra_obligations'):
         interp = Interp(reg, pid)
         for ob in prop.extra_obligations(interp, reg):
@@ -286,9 +298,12 @@ def main(pid, tier='quick', seed=0, replay=None):
         lines.append(f'UNDECIDED obligation={r.ob.name} ({r.reason or r.status})')
     for u in unbound:
         lines.append(f"UNBOUND function={u['function']} {u['reason']}")
+    replayed_any = any(replayed for _, _, replayed in violations)
     for r in vacuous:
         lines.append(f'CHECKER-ERROR property={pid} vacuous: {r.ob.name} is unreachable (contradictory assumptions)')
-        exit_code = 3
+        # an unreachable program point makes the deductive verdicts of this run unreliable; a violation that was replayed on the
+        # real code with a concrete input stands on its own
+        exit_code = 1 if replayed_any else 3
     # ---------------------------------------------------------------- evidence
     known_names = {name for _, name in known_hits}
     counted = [r for r in results if r.ob.kind == 'vc' and r.ob.name not in known_names]
